@@ -5,9 +5,9 @@
 set -u
 ID=$1; X=$2; shift 2
 CHECKS=${*:-$ID}
-WT=/tmp/seed/$ID
+WT=${SEED_BASE:-/tmp/seed}/$ID
 S=$WT/SEED/$X
-OUT=/verif/seeded/$ID-$X
+OUT=/verif/seeded/$ID-${SEED_TAG:-}$X
 mkdir -p $OUT
 cd $WT || exit 2
 git checkout -q -- . ; git apply --check $S/patch.diff || { echo "PATCH DOES NOT APPLY"; exit 2; }
